@@ -26,6 +26,7 @@ NATIVE_PY = os.environ.get('PYVC_NATIVE_PY', '/venv/bin/python')
 # property -> contract modules that carry its harnesses
 MODULES = {
     'C15': ['contracts.c15'],
+    'C03': ['contracts.c03'],
     'C19': ['contracts.c19'],
     'C16': ['contracts.c16', 'contracts.c15'],
     'C13': ['contracts.c13'],
